@@ -157,29 +157,34 @@ def reduce_event(c, idx=0):
         pot = potential_for(c["potential"], extent, gpts)
         scan = scan_for(c["scan"], extent)
         positions = np.asarray(scan.get_positions())
+        # a CTF that will be shared between S-matrices of different energies describes the lens only: it is given no energy of its own
+        ekw = {} if c.get("history") == "ctf_reused" else {"energy": ENERGY}
         if c.get("ctf_cutoff", "given") == "unset":
-            ctf = abtem.CTF(energy=ENERGY, **ABERRATIONS[c["aberrations"]])          # no aperture stated: the S-matrix' cutoff applies
+            ctf = abtem.CTF(**ekw, **ABERRATIONS[c["aberrations"]])          # no aperture stated: the S-matrix' cutoff applies
         else:
-            ctf = abtem.CTF(semiangle_cutoff=cut, energy=ENERGY, **ABERRATIONS[c["aberrations"]])
+            ctf = abtem.CTF(semiangle_cutoff=cut, **ekw, **ABERRATIONS[c["aberrations"]])
         ds = "cutoff" if c["downsample"] else False
         hist = c.get("history", "fresh")
 
         def smatrix():
             cut0 = 0.55 * cut if hist == "edited_cutoff" else cut
+            e0 = 60e3 if hist == "edited_energy" else ENERGY
             if pot is None:
-                S = abtem.SMatrix(extent=extent, gpts=gpts, energy=ENERGY, semiangle_cutoff=cut0, interpolation=f, downsample=ds)
+                S = abtem.SMatrix(extent=extent, gpts=gpts, energy=e0, semiangle_cutoff=cut0, interpolation=f, downsample=ds)
             elif hist == "edited_potential":
                 from ase import Atoms
                 other = abtem.Potential(Atoms(["Au"], positions=[(2.0, 2.0, 2.0)], cell=(extent[0], extent[1], 4.0), pbc=True), gpts=gpts,
                                         slice_thickness=2.0, projection="infinite")
                 S = abtem.SMatrix(potential=other, energy=ENERGY, semiangle_cutoff=cut0, interpolation=f, downsample=ds)
             else:
-                S = abtem.SMatrix(potential=pot, energy=ENERGY, semiangle_cutoff=cut0, interpolation=f, downsample=ds)
-            if hist != "fresh":
+                S = abtem.SMatrix(potential=pot, energy=e0, semiangle_cutoff=cut0, interpolation=f, downsample=ds)
+            if hist in ("edited_cutoff", "edited_potential", "edited_energy"):
                 _ = (len(S), S.shape, np.asarray(S.wave_vectors).shape, S.ensemble_axes_metadata)       # inspect, then edit
                 try:
                     if hist == "edited_cutoff":
                         S.semiangle_cutoff = cut
+                    elif hist == "edited_energy":
+                        S.energy = ENERGY
                     else:
                         S.potential = pot
                 except AttributeError:               # the edit is not offered by this version of the API: use a fresh object instead
@@ -187,12 +192,21 @@ def reduce_event(c, idx=0):
                         abtem.SMatrix(extent=extent, gpts=gpts, energy=ENERGY, semiangle_cutoff=cut, interpolation=f, downsample=ds)
             return S
 
+        if hist == "ctf_reused":
+            # the CTF object was used before, for an S-matrix at another energy on the same grid (results discarded)
+            try:
+                S200 = abtem.SMatrix(extent=extent, gpts=gpts, energy=200e3, semiangle_cutoff=cut, interpolation=f, downsample=ds)
+                used = S200.reduce(scan=scan, ctf=ctf, lazy=False)
+                del used
+            except Exception:
+                pass
+
         def reduced(lazy, dets=None):
             S = smatrix()
             if c["batch_one"]:
-                r = S.build(lazy=lazy).reduce(scan=scan, ctf=ctf.copy(), detectors=dets, max_batch_reduction=1)
+                r = S.build(lazy=lazy).reduce(scan=scan, ctf=ctf if hist == "ctf_reused" else ctf.copy(), detectors=dets, max_batch_reduction=1)
             else:
-                r = S.reduce(scan=scan, ctf=ctf.copy(), detectors=dets, lazy=lazy)
+                r = S.reduce(scan=scan, ctf=ctf if hist == "ctf_reused" else ctf.copy(), detectors=dets, lazy=lazy)
             rs = r if isinstance(r, (list, tuple)) else [r]
             rs = [x.compute() if hasattr(x, "compute") else x for x in rs]
             return [np.asarray(x.array) for x in rs]
